@@ -15,6 +15,10 @@ CLAIMED = {
  "C07": ("proof", "value/mask/dtype postconditions and biconditional raises clauses (raises_only) of the 10 arithmetic commands, dtype symbolic per input; validate_array_shapes body verified", NOTE_MA),
  "C08": ("proof", "value/mask postconditions (lin/curve/cat specs) and raises clauses of 14 conversion commands; curve loop invariant; modular super() calls through the callee's contract", NOTE_MA),
  "C09": ("proof", "frame obligation per execute and helper: every pre-existing array unchanged at valid cells, mask, dtype, shape", NOTE_MA),
+ "C01": ("proof", "heap-level contracts with ghost execution counters: Command.run / Command.result / Command.validate_params / Program.run bodies verified against Inv (finished <=> executed exactly once), Mono (finished results never change), `returns => every command finished and executed exactly once`, `re-run executes nothing`, plus touches-all-refs of the 32 built-in execute bodies",
+         "Trusted: pyvc, z3 (E-matching, MBQI only for counter-models), the plugin contract of Command.execute for third-party plugins, class invariants of Command/Argument objects, A-LOCALS, A-REC, C20's behavioural contract of Parameter.clean. Obligations over the quantified heap have no concretiser: a regression against the committed ledger is reported with the solver's reason (no-failing-input-found); the bounded graph battery on the real code supplies failing inputs where it can."),
+ "C14": ("proof", "Command.run: re-entering a running, unfinished command raises RecursiveModelStructure with no effect and never returns; Program.run: returns => every command finished; lemmas RANK / NO-CYCLE-1..5: a heap where every command is finished has no reference cycle, so a cyclic model can never end in a normal return; recursion is cut at the first re-entry",
+         "Trusted: as C01. That the error raised for a cyclic model is RecursiveModelStructure (and not an earlier, unrelated error of the same model) is shown for the re-entry point itself; the bounded battery runs every cyclic digraph on <=3 (thorough: 4) commands on the real code."),
  "C20": ("proof", "TYPED / RAISES_ONLY / PURE / DETERMINISTIC / IDEMPOTENT obligations of the ten Parameter.clean bodies over an arbitrary dynamic value (recursive Val datatype), symbolic parameter configuration and program",
          "Trusted: pyvc, z3/cvc5, assumed contracts of int()/float()/str()/isinstance/os.path/dict lookup over Val (pyvc/dyn.py), A-TUPLE, behavioural contract assumed for sub-parameters (proved per class: induction on parameter structure), class invariants of parameter objects. Bounded value-alphabet battery on the real cleaners is labelled bounded."),
 }
